@@ -219,6 +219,9 @@ Definition range_ok (line : str) (sb lo hi s e : nat) : nat :=
   andc (chk ((lo <=? s) && (s <=? e) && (e <=? hi)) 2)
        (chk (is_boundary line (sb + s) && is_boundary line (sb + e)) 3).
 
+Definition piece_end (p : piece) : nat :=
+  match p with PLeaf _ _ e | PDq _ e _ | PCmd _ _ e _ _ => e end.
+
 Fixpoint piece_ok (line : str) (sb lo hi : nat) (p : piece) {struct p} : nat :=
   match p with
   | PLeaf _ s e => range_ok line sb lo hi s e
@@ -234,7 +237,7 @@ with pieces_ok (line : str) (sb lo hi : nat) (ps : pieces) {struct ps} : nat :=
   | PNil => chk (lo <=? hi) 2
   | PCons p ps' =>
       andc (piece_ok line sb lo hi p)
-           (pieces_ok line sb (match p with PLeaf _ _ e | PDq _ e _ | PCmd _ _ e _ _ => e end) hi ps')
+           (pieces_ok line sb (piece_end p) hi ps')
   end
 with prog_ok (line : str) (p : prog) {struct p} : nat :=
   match p with
